@@ -586,7 +586,7 @@ def run(ctx):
                 ctx.check(bool(reads) and not early and not skipping, 'C12.R11', '%s|counted-repetition-read-in-full' % qn, lsite,
                           'each of the %s announced elements is read; the loop is not left early' % U(lp.iter.args[0]),
                           'the reader can accept fewer elements than announced by %s (break/return in the loop, or an iteration that reads nothing): a damaged or truncated batch is decoded as a shorter one' % U(lp.iter.args[0]))
-    ctx.count('counted_repetitions', n_counted, 2)
+    ctx.count('counted_repetitions', n_counted, 1)          # 2 today (request and response message); 1 when both share the reader of a common base class
     ut = src.tree(UTILS)
     bs = get_class(ut, 'BytearrayStream')
     rdm = get_method(bs, 'read')
